@@ -460,6 +460,9 @@ def judgeLine (line : String) : String :=
           s!"DIFF {cls} decoded-geometry-differs-from-model"
         else if !costEnvelope c.family c.size p.cost o.alloc then
           s!"DIFF {cls} cost-envelope model-cost={p.cost} measured={o.alloc} size={c.size}"
+        else if (c.family == .wkb || c.family == .hex) && !(o.stack ≤ stackModel c.size + 1048576) then
+          -- the measured frame size: `frameBytes` per nesting level, at most size/9 + 1 levels (C07_wkb_stack_frames)
+          s!"DIFF {cls} stack-envelope measured={o.stack} model={stackModel c.size} size={c.size}"
         else if (match c.upper with | some u => !jsonEnvelope c.size u o.alloc | none => false) then
           s!"DIFF {cls} json-cost measured={o.alloc} node-model={c.upper.getD 0} size={c.size}"
         else s!"OK {cls}"
